@@ -114,6 +114,8 @@ Definition op_outside (r : path) (op : fs_op) : Prop :=
   match op with
   | Write p _ | WriteIfAbsent p _ | Remove p | Mkdirs p => under r p = false
   | Rmtree p => under r p = false /\ under p r = false
+  | Stash _ => under r mem_slot = false
+  | Unstash p => under r p = false /\ under r mem_slot = false
   end.
 
 Definition inr (r : path) (kv : path * entry) : bool := under r (fst kv).
@@ -151,9 +153,19 @@ Proof.
   rewrite filter_app. simpl. unfold inr at 2. simpl. rewrite (H q (or_introl eq_refl)). apply app_nil_r.
 Qed.
 
+Lemma filter_remove_outside : forall r s p, under r p = false ->
+  filter (inr r) (filter (fun kv => negb (path_eqb (fst kv) p)) s) = filter (inr r) s.
+Proof.
+  intros r s p H. apply filter_filter_absorb. intros [q e] Hq. unfold inr in Hq. simpl in *.
+  destruct (path_eqb q p) eqn:E; [|reflexivity]. apply list_eqb_str_eq in E. subst. congruence.
+Qed.
+
+Lemma under_nil_false : forall r t, under r t = false -> under r [] = false.
+Proof. intros r t H. destruct r; [discriminate | reflexivity]. Qed.
+
 Lemma apply_outside : forall r s op, op_outside r op -> filter (inr r) (apply_op s op) = filter (inr r) s.
 Proof.
-  intros r s op H. destruct op as [p t|p t|p|p|p]; simpl in *.
+  intros r s op H. destruct op as [p t|p t|p|p|p|p|p]; simpl in *.
   - apply filter_set_outside. exact H.
   - destruct (exists_b s p); [reflexivity | apply filter_set_outside; exact H].
   - apply filter_filter_absorb. intros [q e] Hq. unfold inr in Hq. simpl in *.
@@ -163,11 +175,14 @@ Proof.
   - destruct H as [H1 H2]. apply filter_filter_absorb. intros [q e] Hq. unfold inr in Hq. simpl in *.
     destruct (under p q) eqn:E; [|reflexivity].
     destruct (under_comparable r p q Hq E) as [C|C]; congruence.
+  - destruct (lookup p s); [apply filter_set_outside; exact H | apply filter_remove_outside; exact H].
+  - destruct H as [H1 H2]. destruct (lookup mem_slot s); [|reflexivity].
+    rewrite filter_set_outside by exact H1. apply filter_remove_outside. exact H2.
 Qed.
 
 Lemma touched_outside : forall r s op p, op_outside r op -> In p (op_touched s op) -> under r p = false.
 Proof.
-  intros r s op p H Hin. destruct op as [q t|q t|q|q|q]; simpl in *.
+  intros r s op p H Hin. destruct op as [q t|q t|q|q|q|q|q]; simpl in *.
   - destruct Hin as [Hin|[]]. subst. exact H.
   - destruct (exists_b s q); [contradiction|]. destruct Hin as [Hin|[]]. subst. exact H.
   - destruct Hin as [Hin|[]]. subst. exact H.
@@ -177,6 +192,9 @@ Proof.
     apply filter_In in Hin. destruct Hin as [_ Hu]. simpl in Hu.
     destruct (under r p) eqn:E; [|reflexivity].
     destruct (under_comparable r q p E Hu) as [C|C]; congruence.
+  - contradiction.
+  - destruct H as [H1 H2]. destruct (exists_b s mem_slot); [|contradiction].
+    destruct Hin as [Hin|[]]. subst. exact H1.
 Qed.
 
 Lemma exec_outside : forall r pl s, Forall (fun so => op_outside r (snd so)) pl ->
@@ -204,10 +222,12 @@ Qed.
 
 Lemma rebase_outside : forall r t op, under r t = false -> under t r = false -> op_outside r (rebase t op).
 Proof.
-  intros r t op H1 H2. destruct op as [p n|p n|p|p|p]; simpl; try (apply disjoint_app; assumption).
-  split; [apply disjoint_app; assumption|].
-  destruct (under (t ++ p) r) eqn:E; [|reflexivity].
-  rewrite (under_trans t (t ++ p) r (under_app t p) E) in H2. discriminate.
+  intros r t op H1 H2. destruct op as [p n|p n|p|p|p|p|p]; simpl; try (apply disjoint_app; assumption).
+  - split; [apply disjoint_app; assumption|].
+    destruct (under (t ++ p) r) eqn:E; [|reflexivity].
+    rewrite (under_trans t (t ++ p) r (under_app t p) E) in H2. discriminate.
+  - eapply under_nil_false; exact H1.
+  - split; [apply disjoint_app; assumption | eapply under_nil_false; exact H1].
 Qed.
 
 Lemma before_incl : forall k l st, In st (before k l) -> In st l.
@@ -290,6 +310,8 @@ Definition rel_ok (c : config) (op : fs_op) : bool :=
   | Write q _ | WriteIfAbsent q _ | Remove q => allowed c (root c ++ q)
   | Mkdirs q => forallb (fun q' => allowed c (root c ++ q')) (prefixes q)
   | Rmtree q => under (out_pkg c) q || under (core_fqn c) q
+  | Stash _ => true
+  | Unstash q => allowed c (root c ++ q)
   end.
 
 Lemma prefixes_allowed : forall c d x, (d = out_pkg c \/ d = core_fqn c) ->
@@ -303,10 +325,11 @@ Qed.
 
 Lemma rel_ok_at : forall c d op, (d = out_pkg c \/ d = core_fqn c) -> rel_ok c (rebase d op) = true.
 Proof.
-  intros c d op Hd. destruct op as [p t|p t|p|p|p]; simpl;
+  intros c d op Hd. destruct op as [p t|p t|p|p|p|p|p]; simpl;
     try (apply (allowed_under_d c d _ Hd); apply under_app).
   - apply prefixes_allowed. exact Hd.
   - destruct Hd as [Hd|Hd]; subst d; rewrite under_app; [reflexivity | apply orb_true_r].
+  - reflexivity.
 Qed.
 
 Lemma rel_ok_map_at : forall c d ops, (d = out_pkg c \/ d = core_fqn c) ->
@@ -379,7 +402,9 @@ Qed.
 Lemma touched_ok : forall c s op p, rel_ok c op = true ->
   In p (op_touched s (rebase (root c) op)) -> sunder (root c) p = true -> allowed c p = true.
 Proof.
-  intros c s op p Hok Hin Hs. destruct op as [q t|q t|q|q|q]; simpl in *.
+  intros c s op p Hok Hin Hs. destruct op as [q t|q t|q|q|q|q|q]; simpl in *;
+    [| | | | |contradiction|
+     destruct (exists_b s mem_slot); [destruct Hin as [Hin|[]]; subst; exact Hok | contradiction]].
   - destruct Hin as [Hin|[]]. subst. exact Hok.
   - destruct (exists_b s (root c ++ q)); [contradiction|]. destruct Hin as [Hin|[]]. subst. exact Hok.
   - destruct Hin as [Hin|[]]. subst. exact Hok.
@@ -590,7 +615,7 @@ Proof.
   - simpl.
     + apply Forall_forall. intros [st' op'] Hin. apply in_map_iff in Hin. destruct Hin as [op'' [E Hin]].
       inversion E; subst. simpl. apply in_app_or in Hin. destruct Hin as [Hin|Hin].
-      * destruct op as [p t|p t|p|p|p]; simpl in Ecut.
+      * destruct op as [p t|p t|p|p|p|p|p]; simpl in Ecut.
         -- destruct (base_matches name p); inversion Ecut; subst; contradiction.
         -- destruct (negb (exists_b s p) && base_matches name p); inversion Ecut; subst; contradiction.
         -- discriminate.
@@ -598,6 +623,8 @@ Proof.
              [|discriminate]. inversion Ecut; subst. destruct Hin as [Hin|[]]. subst.
            apply find_some in Ef. destruct Ef as [Ef _]. eapply Hcl; eauto.
         -- discriminate.
+        -- discriminate.
+        -- destruct (exists_b s mem_slot && base_matches name p); inversion Ecut; subst; contradiction.
       * pose proof (Hlog st') as HL. rewrite Forall_forall in HL. apply HL. exact Hin.
   - simpl. constructor; [exact H1 | apply IH; exact H2].
 Qed.
